@@ -18,6 +18,7 @@
 (*                                            step) when the relay read the source / wrote the        *)
 (*                                            destination of direction d: the call failed with a      *)
 (*                                            time-out; the stream itself has not ended                *)
+(*   PeerEOF{e}                               (real sockets) the peer of conn e read end-of-stream  *)
 (*   Returned{...} | Hung                     the call returned / had not returned when the      *)
 (*                                            watchdog (5 s) expired                             *)
 (* UDP relay (iocopy.UDP)                                                                        *)
@@ -45,6 +46,9 @@
 (*   ReverseFlow  the relay closes a conn only when both directions are over; half-closes a      *)
 (*                conn only when the direction into it is over; writes nothing after that          *)
 (*   EarlyReturn  the relay returned while a direction was still live                             *)
+(*   Told         when one side is over - clean EOF, reset, failure - the other side is told        *)
+(*                (half-close or close) within bounded time, so that a peer that only waits can       *)
+(*                react and the relay can return (BStart.cwA/cwB: the conn can be half-closed)         *)
 (*   Datagram     boundaries, contents, order of datagrams through the length-prefixed encoding   *)
 (*   Flush        batched datagrams reach the tunnel                                              *)
 (*   Termination  Hung after both directions finished / after the tunnel stream ended              *)
@@ -65,7 +69,9 @@ B0 == [sent |-> [e \in Ends |-> 0], got |-> [e \in Ends |-> 0],
        wr |-> [e \in Ends |-> "open"], rdClosed |-> [e \in Ends |-> FALSE],
        dirEnded |-> [d \in {"AB", "BA"} |-> FALSE], rcw |-> [e \in Ends |-> FALSE],
        rtmo |-> [d \in {"AB", "BA"} |-> FALSE], wtmo |-> [d \in {"AB", "BA"} |-> FALSE],
-       order |-> "", obs |-> FALSE, sc |-> ""]
+       order |-> "", obs |-> FALSE, sc |-> "",
+       cw |-> [e \in Ends |-> FALSE],     \* conn e can be half-closed (a CloseWrite is reachable)
+       told |-> [e \in Ends |-> FALSE]]   \* endpoint e has seen end-of-stream / its conn closed by the relay
 U0 == [t |-> <<>>, u |-> <<>>, cut |-> 0, how |-> "eof", ugot |-> 0, tgot |-> 0, usent |-> 0, ended |-> FALSE, sc |-> "", lossy |-> FALSE, sock |-> "fake",
        whole |-> 0, key |-> ""]     \* whole = Whole(t, cut), key = the behaviour's input class - computed once per trace
 
@@ -87,7 +93,8 @@ Step == l' = l + 1
 
 \* ---- TCP relay ---------------------------------------------------------------------------------
 TrBStart == /\ Is("BStart") /\ Step /\ mode' = "bidi"
-            /\ b' = [B0 EXCEPT !.obs = (Ev.conn = "fake"), !.sc = IF Has("sc") THEN Ev.sc ELSE ""]
+            /\ b' = [B0 EXCEPT !.obs = (Ev.conn = "fake"), !.sc = IF Has("sc") THEN Ev.sc ELSE "",
+                                !.cw = [e \in Ends |-> IF e = "A" THEN (Has("cwA") /\ Ev.cwA) ELSE (Has("cwB") /\ Ev.cwB)]]
             /\ Keep(viol) /\ Keep(ud)
 
 TrSend == /\ Is("Send") /\ Step
@@ -130,12 +137,16 @@ TrWriteErr == /\ Is("WriteErr") /\ Step
 TrRelayCloseWrite ==
   /\ Is("RelayCloseWrite") /\ Step
   /\ viol' = viol \cup (IF b.dirEnded[DirInto(Ev.e)] THEN {} ELSE {V("ReverseFlow", "halfCloseBeforeDirectionOver:" \o Ev.e)})
-  /\ b' = [b EXCEPT !.rcw[Ev.e] = TRUE]
+  /\ b' = [b EXCEPT !.rcw[Ev.e] = TRUE, !.told[Ev.e] = TRUE]
   /\ Keep(mode) /\ Keep(ud)
 TrRelayClose ==
   /\ Is("RelayClose") /\ Step
   /\ viol' = viol \cup (IF b.dirEnded["AB"] /\ b.dirEnded["BA"] THEN {} ELSE {V("ReverseFlow", "closeBeforeBothDirectionsOver:" \o Ev.e \o ":" \o b.order \o Sb)})
-  /\ Keep(b) /\ Keep(mode) /\ Keep(ud)
+  /\ b' = [b EXCEPT !.told[Ev.e] = TRUE]
+  /\ Keep(mode) /\ Keep(ud)
+\* (real sockets) the peer of conn e has read end-of-stream / a connection error
+TrPeerEOF == /\ Is("PeerEOF") /\ Step /\ b' = [b EXCEPT !.told[Ev.e] = TRUE]
+             /\ Keep(viol) /\ Keep(mode) /\ Keep(ud)
 
 BIncomplete == {d \in {"AB", "BA"} : b.wr[Src(d)] = "shut" /\ ~b.rdClosed[Dst(d)] /\ b.got[Dst(d)] # b.sent[Src(d)]}
 BLive == {d \in {"AB", "BA"} : b.wr[Src(d)] = "open" /\ ~b.rdClosed[Dst(d)]}
@@ -150,6 +161,10 @@ TrReturnedB ==
 TrHungB ==
   /\ Is("Hung") /\ mode = "bidi" /\ Step
   /\ viol' = viol \cup (IF \A e \in Ends : b.wr[e] # "open" THEN {V("Termination", "bidi:" \o b.order)} ELSE {})
+                  \* endpoint s is over (for whatever cause), the bounded time has passed, and the other endpoint,
+                  \* whose conn can be half-closed, has still not been told: it cannot react, the relay cannot return
+                  \cup {V("Told", Other(s) \o "NeverTold:" \o b.order \o Sb) :
+                          s \in {x \in Ends : b.wr[x] # "open" /\ b.wr[Other(x)] = "open" /\ b.cw[Other(x)] /\ ~b.told[Other(x)]}}
   /\ Keep(b) /\ Keep(mode) /\ Keep(ud)
 
 \* ---- UDP relay ---------------------------------------------------------------------------------
@@ -213,7 +228,7 @@ TrHungU ==
 TrEnd == /\ Is("End") /\ EmitVerdict
          /\ Step /\ viol' = {} /\ mode' = "none" /\ b' = B0 /\ ud' = U0
 
-Next == \/ TrBStart \/ TrSend \/ TrEpEnd \/ TrDeliver \/ TrReadEnd \/ TrWriteErr \/ TrReadTimeout \/ TrWriteTimeout
+Next == \/ TrPeerEOF \/ TrBStart \/ TrSend \/ TrEpEnd \/ TrDeliver \/ TrReadEnd \/ TrWriteErr \/ TrReadTimeout \/ TrWriteTimeout
         \/ TrRelayCloseWrite \/ TrRelayClose \/ TrRelayDeadline \/ TrReturnedB \/ TrHungB
         \/ TrUStart \/ TrUDeliver \/ TrUSent \/ TrTRecord \/ TrTJunk \/ TrUFlushTimeout
         \/ TrTunnelEnd \/ TrUTimeout \/ TrReturnedU \/ TrHungU
